@@ -445,8 +445,14 @@ fn special_items(ctx: &Ctx, prop: &str) -> Vec<(String, usize)> {
             for n in if q { vec![50usize] } else { vec![50, 2000] } {
                 v.push(("many-frames-high-layer".into(), n));
             }
+            // renders whose extent exceeds i32: only where they finish in seconds (optimised build)
+            if prop == "C05" {
+                for _ in 0..if q { 1 } else { 4 } {
+                    v.push(("tilemap-huge-extent".into(), 1));
+                }
+            }
             for b in spec::BUGS {
-                if !matches!(*b, "deep-nesting" | "many-layers" | "many-tags" | "many-frames-high-layer" | "deflate-bomb") {
+                if !matches!(*b, "deep-nesting" | "many-layers" | "many-tags" | "many-frames-high-layer" | "deflate-bomb" | "tilemap-huge-extent") {
                     for _ in 0..if q { 2 } else { 12 } {
                         v.push((b.to_string(), 1));
                     }
@@ -554,6 +560,16 @@ impl Job {
                 let b = gen_special(rseed, bug, *scale, &mut r);
                 p.base_desc = b.desc;
                 p.base = b.bytes;
+                if bug == "tilemap-huge-extent" && std::env::var("ASESIM_PROFILE").map(|p| p == "unopt").unwrap_or(false) {
+                    // would take minutes with the library unoptimised: not run in that profile
+                    p.base.clear();
+                    p.base_desc = format!("{} [not run in the unopt profile]", p.base_desc);
+                    p.workload = Workload::None;
+                } else if bug == "tilemap-huge-extent" {
+                    p.note = "costcap=33".into();
+                    // the sweep would render the huge tilemap several times: ask for one frame
+                    p.workload = Workload::Explicit(vec![crate::observe::Op::FrameImage(0)]);
+                }
                 p.wrapper = if mode == "mem" { Wrapper::Sim } else { Wrapper::Slice };
             }
             JobKind::Random { .. } => self.random_plan(ctx, &mut p, rseed),
